@@ -675,6 +675,85 @@ func c15(c *Ctx) {
 		"the reconciler is written once against the PackageRevision interface: an accessor of one kind that reads a sibling field (skipDependencyResolution for ignoreCrossplaneConstraints) silently switches a gate off for that kind only")
 	accessorsOwnField(c, xp+"apis/pkg/v1", "ProviderRevision", "ConfigurationRevision", "FunctionRevision")
 
+	c.R.Rule("R15.10", "only a clean end of stream is not a read failure; a verification config counts whether or not it is complete", 2,
+		"a download that breaks off with any other error (unexpected EOF included) would be cached as a complete stream; an ImageConfig that asks for verification but lacks the cosign block would count as 'no verification configured' and the package be installed unverified")
+	if rd := c.P.Method("internal/xpkg", "teeReadCloser", "Read"); rd != nil {
+		c.mech(rd)
+		n, bad := 0, ""
+		for _, x := range cfgx.Calls(rd, nil) {
+			if cfgx.CalleeName(x) != "errors.Is" {
+				continue
+			}
+			n++
+			a := cfgx.CallArgs(x)
+			ok := false
+			if ld, isLd := a[1].(*ssa.UnOp); isLd {
+				if g, isG := ld.X.(*ssa.Global); isG && g.Pkg.Pkg.Path() == "io" && g.Name() == "EOF" {
+					ok = true
+				}
+			}
+			if !ok {
+				bad = c.pos(x.Pos())
+			}
+		}
+		for _, b := range rd.Blocks {
+			for _, in := range b.Instrs {
+				if bo, isB := in.(*ssa.BinOp); isB && isEqOrNeq(bo) {
+					for _, side := range []ssa.Value{bo.X, bo.Y} {
+						if ld, isLd := side.(*ssa.UnOp); isLd {
+							if g, isG := ld.X.(*ssa.Global); isG && g.Pkg.Pkg.Path() == "io" {
+								n++
+								if g.Name() != "EOF" {
+									bad = c.pos(bo.Pos())
+								}
+							}
+						}
+					}
+				}
+			}
+		}
+		c.R.Check(n > 0 && bad == "", load.FuncName(rd)+": only io.EOF is a clean end", c.pos(rd.Pos()), "the read error is compared with io.EOF only", "the read error is also excused when it is something other than io.EOF (at "+bad+"): a stream that broke off is handed to the cache as complete")
+	}
+	if vf := c.P.Method("internal/xpkg", "ImageConfigStore", "ImageVerificationConfigFor"); vf != nil {
+		c.mech(vf)
+		n := 0
+		for _, bm := range cfgx.Calls(vf, func(ci ssa.CallInstruction) bool {
+			return strings.HasSuffix(cfgx.CalleeName(ci), "ImageConfigStore).bestMatch")
+		}) {
+			a := cfgx.CallArgs(bm)
+			var pred *ssa.Function
+			last := a[len(a)-1]
+			if ct, ok := last.(*ssa.ChangeType); ok {
+				last = ct.X
+			}
+			switch x := last.(type) {
+			case *ssa.Function:
+				pred = x
+			case *ssa.MakeClosure:
+				pred, _ = x.Fn.(*ssa.Function)
+			}
+			if pred == nil {
+				continue
+			}
+			n++
+			good := len(pred.Blocks) == 1
+			if good {
+				good = false
+				for _, v := range cfgx.ReturnedValues(pred, 0) {
+					if bo, ok := v.(*ssa.BinOp); ok && bo.Op == token.NEQ && cfgx.IsNilConst(bo.Y) {
+						if _, p, _ := flow.AccessPathC(bo.X); strings.HasSuffix(p, "Verification") {
+							good = true
+						}
+					}
+				}
+			}
+			c.R.Check(good, load.FuncName(vf)+": every config that asks for verification counts", c.pos(bm.Pos()), "the match predicate is Spec.Verification != nil", "the match predicate asks for more than Spec.Verification != nil: an incomplete verification config is treated as none and verification is skipped")
+		}
+		if n == 0 {
+			c.R.Unknown(load.FuncName(vf)+": predicate", c.pos(vf.Pos()), "the bestMatch predicate was not found")
+		}
+	}
+
 	c.R.Rule("R15.5", "Verified is only set true for a reason", 2, "an unverified package would pass the revision controller's gate")
 	if sr := c.method("internal/controller/pkg/signature", "Reconciler", "Reconcile"); sr != nil {
 		val := cfgx.Calls(sr, func(ci ssa.CallInstruction) bool {
